@@ -311,6 +311,7 @@ impl Known {
         let detail = viol["expect"]["detail"].as_str().unwrap_or("");
         let uni = viol["universe"].to_string();
         let plan = viol["plan"].to_string();
+        let whole = viol.to_string();
         for e in &self.entries {
             if e["status"].as_str() != Some("known") {
                 continue; // fixed entries suppress nothing
@@ -325,7 +326,7 @@ impl Known {
             }
             let ok = |key: &str, hay: &str| e["match"][key].as_array().map(|a| a.iter().all(|s| hay.contains(s.as_str().unwrap_or("\u{0}")))).unwrap_or(true);
             let any_ok = |key: &str, hay: &str| e["match"][key].as_array().map(|a| a.is_empty() || a.iter().any(|s| hay.contains(s.as_str().unwrap_or("\u{0}")))).unwrap_or(true);
-            if ok("ops_contains", &ops) && ok("detail_contains", detail) && ok("universe_contains", &uni) && ok("plan_contains", &plan) && any_ok("ops_contains_any", &ops) && any_ok("detail_contains_any", detail) {
+            if ok("ops_contains", &ops) && ok("detail_contains", detail) && ok("universe_contains", &uni) && ok("plan_contains", &plan) && ok("json_contains", &whole) && any_ok("ops_contains_any", &ops) && any_ok("detail_contains_any", detail) {
                 return Some(e["what"].as_str().unwrap_or("").to_string());
             }
         }
